@@ -23,11 +23,17 @@ type syncLn struct {
 	connected []string
 	failTo    map[string]bool
 	listFails bool
+	// onSend, when set, runs while a message to that peer is being sent (a send takes up to seconds: messages from
+	// the peer are handled meanwhile)
+	onSend func(to string)
 }
 
 func (c *syncLn) SendCustomMessage(_ context.Context, to peersync.PeerID, t messages.MessageType, p []byte) error {
 	if c.failTo[to.String()] {
 		return fmt.Errorf("send failed")
+	}
+	if c.onSend != nil {
+		c.onSend(to.String())
 	}
 	c.sent = append(c.sent, sentMsg{to.String(), t, append([]byte{}, p...)})
 	return nil
@@ -364,6 +370,41 @@ func init() {
 		res.Rule = "operation sequences on the real PeerSync (real bbolt store, real policy file for suspicious peers, virtual clock); judged from outside after every operation: (1) after a well-formed poll/request_poll from a non-suspicious peer the stored capability is the received one unless it advertises a lower version than the stored one, in which case the stored one is unchanged; malformed payloads and suspicious senders change nothing; (2) records written with random contents reload with the same id, address, status, times and capability (an all-zero capability counts as none); a restart changes no record; (3) a cleanup removes exactly the peers that are not connected and were last observed more than the cleanup timeout ago, nothing when ListPeers fails; (4) two requests to the same unknown peer less than the request interval apart happen only if a round was forced, the peer was absent from a round in between, or the node restarted; (5) HasCompatiblePeer == (stored capability version == 7); distinct = distinct operation sequences"
 		hist := res.Histogram
 		ctx := context.Background()
+		// (1') the peer's newest poll is handled WHILE a poll round is sending to that peer: the stored capability
+		// must still be the most recent one afterwards
+		for _, forced := range []bool{true, false} {
+			w := newSyncWorld(nil)
+			pid := "02" + strings.Repeat("ab", 32)
+			id, _ := peersync.NewPeerID(pid)
+			w.ln.connected = []string{pid}
+			oldPoll := `{"version":6,"assets":["btc"],"peer_allowed":true,"btc_swap_in_premium_rate_ppm":100}`
+			newPoll := `{"version":7,"assets":["btc","lbtc"],"peer_allowed":true,"btc_swap_in_premium_rate_ppm":777}`
+			w.ps.VerifHandle(ctx, peersync.CustomMessage{From: id, Type: messages.MESSAGETYPE_POLL, Payload: []byte(oldPoll)})
+			fired := false
+			w.ln.onSend = func(to string) {
+				if to == pid && !fired {
+					fired = true
+					w.ps.VerifHandle(ctx, peersync.CustomMessage{From: id, Type: messages.MESSAGETYPE_POLL, Payload: []byte(newPoll)})
+				}
+			}
+			w.advance(11 * time.Second)
+			w.ps.VerifPollPeers(ctx, forced)
+			w.ln.onSend = nil
+			res.Evaluations++
+			res.Distinct++
+			hist["poll handled during a poll round"]++
+			st, err := w.store.GetPeerState(id)
+			in := map[string]interface{}{"forced_round": forced, "schedule": "stored v6 rate 100; round starts; while the round sends to the peer its poll v7 rate 777 is handled; round finishes"}
+			switch {
+			case !fired:
+				hist["poll handled during a poll round: no send happened"]++
+			case err != nil || st == nil || st.Capability() == nil:
+				res.addFinding("C28/newer-poll-lost/record-missing", "the peer's record is gone after the round", in)
+			case st.Capability().Version().Value() != 7:
+				res.addFinding("C28/newer-poll-lost/overwritten-by-poll-round", fmt.Sprintf("the poll round wrote its stale copy over the newer poll: stored version %d, the newest poll advertised 7", st.Capability().Version().Value()), in)
+			}
+			w.close()
+		}
 		// (2) record round trip on its own
 		{
 			w := newSyncWorld(nil)
